@@ -4,6 +4,7 @@ import Verif.Model.C09JsWriter
 import Verif.Spec.C09JsStr
 import Verif.Model.JsStmt
 import Verif.Proofs.C09JsSep
+import Verif.Proofs.C09JsStmt
 import Driver.C01
 /-! driver handlers for property C09, JavaScript slice (ops `spec.c09.js.*`, `model.c09.js.*`) -/
 namespace Verif.Driver.C09Js
@@ -59,9 +60,10 @@ def strokH : Handler := fun args => do
   let b ← argChars args 1
   .ok (boolBytes (Verif.Spec.C09JsStr.strOutOk a b))
 
-/-- `model.c09.js.stmt <ver2020> <prog>` (program encoding of `Driver.C01`) → `[hyp, relex, bytes]`: the tokens of the
+/-- `model.c09.js.stmt <ver2020> <prog>` (program encoding of `Driver.C01`) → `[hyp, relex, bytes, guard]`: the tokens of the
     C01 statement printer model `jsTokens`; `hyp`: they satisfy the four hypotheses of `js_token_sep`; `relex`: the
-    independent lexer reads the written bytes back as exactly these tokens -/
+    independent lexer reads the written bytes back as exactly these tokens; `guard`: the guarded printer `jsTokensG` of
+    the theorem `js_print_relex_partial` is defined (and then equal to the model) -/
 def stmtH : Handler := fun args => do
   let v ← argBool args 0
   let b ← argBytes args 1
@@ -73,7 +75,8 @@ def stmtH : Handler := fun args => do
       && Verif.Proofs.C09JsSep.headOk ts && Verif.Proofs.C09JsSep.goalsOk {} true ts
     let out := Verif.Model.JsPrint.emit ts
     let rl := lex out == some (Verif.Proofs.C09JsSep.lexToks true ts)
-    .ok (listReply [boolBytes hyp, boolBytes rl, charsToBytes out])
+    let guard := (Verif.Proofs.C09JsStmt.jsTokensG { ver2020 := v } prog) == some ts
+    .ok (listReply [boolBytes hyp, boolBytes rl, charsToBytes out, boolBytes guard])
 
 def handlers : List (String × Handler) :=
   [("spec.c09.js.lex", lexH), ("model.c09.js.stmt", stmtH), ("model.c09.js.emit", emitH), ("spec.c09.js.strval", strvalH),
